@@ -93,9 +93,13 @@ Dot16(a, v)   == Cos16(a) * v[1] + Sin16(a) * v[2]
 \* start and end of the swept interval in increasing angle
 WStart(a0, sw) == IF sw >= 0 THEN a0 ELSE a0 + sw
 WEnd(a0, sw)   == IF sw >= 0 THEN a0 + sw ELSE a0
+\* For sweeps below 180 degrees the wedge is the intersection of the two half planes AND lies on the forward
+\* side of its bisector; without the last conjunct a zero sweep would denote the whole LINE through the centre
+\* (both rays) instead of the single ray it sweeps.
 InWedge(a0, sw, v) ==
-  LET s == Cross16(WStart(a0, sw), v) >= 0  e == Cross16(WEnd(a0, sw), v) <= 0 IN
-  IF Abs(sw) >= 5760 THEN TRUE ELSE IF Abs(sw) >= 2880 THEN s \/ e ELSE s /\ e
+  LET s == Cross16(WStart(a0, sw), v) >= 0  e == Cross16(WEnd(a0, sw), v) <= 0
+      fwd == Dot16(WStart(a0, sw), v) + Dot16(WEnd(a0, sw), v) >= 0 IN
+  IF Abs(sw) >= 5760 THEN TRUE ELSE IF Abs(sw) >= 2880 THEN s \/ e ELSE s /\ e /\ fwd
 \* distance (pixels) from v/2 to the ray of angle a is at most 1.51:  |cross| / 2 <= 1.51  resp.  |v| / 2 <= 1.51
 NearRay(a, v) == IF Dot16(a, v) >= 0 THEN Abs(Cross16(a, v)) <= 197919 ELSE 100 * (v[1] * v[1] + v[2] * v[2]) <= 912
 NearBoundary(a0, sw, v) == NearRay(WStart(a0, sw), v) \/ NearRay(WEnd(a0, sw), v)
